@@ -9,14 +9,18 @@ COQ_MODULE = 'Desper.Tree.C16Model'
 CASE_TYPE = 'C16_case'
 VERDICT = 'C16_verdict'
 PROPS_FILE = 'theories/Props/C16.v'
-THEOREM = 'C16_population_mirrors_tree'
+THEOREM = 'C16_population_mirrors_tree_noclash'
 RULE = ('1-3 populations of one ResourceMap from real temporary directory trees (depth <= 4, '
         'file names with 0-2 dots, directory names with and without a dot, empty '
         'directories), each with 1-3 rules (rule directory existing, nested in another '
         "rule's directory, missing 12%, a regular file 6%; extension filters 45%; distinct "
         'extra arguments per rule), nest_on_conflict / trim_extensions drawn independently at '
         'construction and per call (None = fall back); the same root is populated again in '
-        'half of the multi-call cases; the path sequence given to the model is what '
+        'half of the multi-call cases; in half of the cases there is a second directory tree '
+        '(passed per call through root=) which in 70% is a copy of the first in which some '
+        'names changed sides (25% of the cases are aimed at it: a name gets 1-3 handle layers by '
+        'nested population, then becomes a directory; a file became a directory under its name or its name without '
+        'extension, a directory became a file): the latest population wins; the path sequence given to the model is what '
         'glob.iglob returned in that run; non-trivial = some handle conflict (a key built '
         'twice) or a filter that rejects a file, and at least 3 files')
 TRUSTED = [
@@ -70,18 +74,57 @@ def file_paths(t, prefix=()):
     return out
 
 
+def sanitize(t):
+    """within one tree a name is a file or a directory (with and without
+    its extension), never both"""
+    t['f'] = [n for n in t['f'] if n not in t['d'] and os.path.splitext(n)[0] not in t['d']]
+    for c in t['d'].values():
+        sanitize(c)
+    return t
+
+
+def flip(rng, t, top=True):
+    """another directory tree in which some names changed sides: a file became
+    a directory (under its name or under its name without extension), a
+    directory became a file"""
+    out = {'d': {}, 'f': []}
+    for n in t['f']:
+        r = rng.random()
+        if r < 0.35:
+            dn = n if rng.random() < 0.4 else os.path.splitext(n)[0]
+            if dn and dn not in out['d']:
+                out['d'][dn] = {'d': {}, 'f': [rng.choice(['leaf', 'a.png', 'b.txt'])
+                                              for _ in range(rng.randint(0, 2))]}
+                out['d'][dn]['f'] = sorted(set(out['d'][dn]['f']))
+                continue
+        if r < 0.9:
+            out['f'].append(n)
+    for n, c in t['d'].items():
+        if not top and rng.random() < 0.2:
+            if n not in out['f']:
+                out['f'].append(n)
+        elif n not in out['d']:
+            out['d'][n] = flip(rng, c, False)
+    return out
+
+
 def gen_case(rng):
-    nroots = rng.choice([1, 1, 2])
+    nroots = rng.choice([1, 2, 2])
     roots = []
-    for _ in range(nroots):
+    for i in range(nroots):
+        if i == 1 and rng.random() < 0.7:
+            roots.append(sanitize(flip(rng, roots[0])))
+            continue
         t = gen_tree(rng, rng.choice([1, 2, 2, 3]))
         if not t['d']:
             t['d'][rng.choice(DIR_NAMES)] = gen_tree(rng, 1)
-        roots.append(t)
+        roots.append(sanitize(t))
     calls = []
     sig = 0
-    for ci in range(rng.choice([1, 1, 2, 2, 3])):
-        ri = rng.randrange(nroots) if (ci == 0 or rng.random() < 0.5) else calls[-1]['root']
+    for ci in range(rng.choice([1, 2, 2, 3, 3])):
+        ri = (rng.randrange(nroots) if (ci == 0 or rng.random() < 0.6) else calls[-1]['root'])
+        if ci == 0 and nroots == 2 and rng.random() < 0.6:
+            ri = 0
         t = roots[ri]
         dps = dir_paths(t)
         fps = file_paths(t)
@@ -106,9 +149,42 @@ def gen_case(rng):
     return {'roots': roots, 'calls': calls}
 
 
+def gen_layered_flip(rng):
+    """a name gets 1-3 handle layers by repeated nested population, then the
+    map is populated from a tree in which that name is a directory (or, the
+    other way round, a populated directory becomes a file)"""
+    d = rng.choice(DIR_NAMES)
+    stem = rng.choice(['a', 'b', 'img'])
+    ext = rng.choice(['.png', '.txt', ''])
+    trim = rng.random() < 0.5
+    t0 = {'d': {d: {'d': {}, 'f': sorted({stem + ext, rng.choice(['c.png', 'c.txt', 'x.y'])})}},
+          'f': []}
+    dn = stem if (trim or not ext) else stem + ext
+    inner = {'d': {}, 'f': sorted({rng.choice(['leaf', 'a.png']), rng.choice(['leaf', 'b.txt'])})}
+    if rng.random() < 0.3:
+        inner = {'d': {'sub': inner}, 'f': []}
+    t1 = {'d': {d: {'d': {dn: inner}, 'f': [f for f in t0['d'][d]['f'] if f != stem + ext and
+                                           os.path.splitext(f)[0] != dn]}}, 'f': []}
+    roots = [t0, t1]
+    order = [0] * rng.randint(1, 3) + [1]
+    if rng.random() < 0.3:
+        order = [1] + [0] * rng.randint(1, 2)          # a directory becomes a file
+    if rng.random() < 0.3:
+        order.append(rng.choice([0, 1]))
+    calls = []
+    sig = 0
+    for ri in order:
+        sig += 1
+        calls.append({'root': ri,
+                      'rules': [{'path': [d], 'exts': [], 'sig': sig, 'kw': rng.random() < 0.5}],
+                      'ctor': [rng.choice([None, True, True]), trim],
+                      'call': [rng.choice([None, None, True, False]), None]})
+    return {'roots': roots, 'calls': calls}
+
+
 def gen(rng, tier):
     n = {'quick': 320, 'thorough': 3000, 'search': 250}[tier]
-    return [gen_case(rng) for _ in range(n)]
+    return [gen_layered_flip(rng) if rng.random() < 0.25 else gen_case(rng) for _ in range(n)]
 
 
 # ---------------------------------------------------------------------- runner
